@@ -4,7 +4,7 @@ from .. import common, pool, pipefam, cli, gen
 
 RULE = ("interleavings of k worker puts, collector steps (flag test / pop) and the main thread's stop request, enumerated from the "
         "model's transition system (all maximal interleavings with at most one idle collector cycle, k <= 2 quick / k <= 3 thorough) "
-        "plus random schedules up to k = 6 (quick) / 8; each schedule is replayed on the real _ProgressBars with instrumented "
+        "plus random schedules up to k = 6 (quick) / 8, plus two schedules in which the collector thread is starved for 1.4 s / 2.3 s after the stop request; each schedule is replayed on the real _ProgressBars with instrumented "
         "queue/event objects under a deterministic scheduler and evaluated in the Coq model; non-trivial = the stop request falls "
         "while a result is still queued or un-popped; distinct = the schedule")
 
@@ -75,7 +75,7 @@ def complete(s, k):
 
 
 def to_coq(s):
-    return "[" + "; ".join("W %d" % a[1] if a[0] == "W" else a[0] for a in s) + "]"
+    return "[" + "; ".join("W %d" % a[1] if a[0] == "W" else a[0] for a in s if a[0] != "S") + "]"
 
 
 def run(chk):
@@ -95,6 +95,9 @@ def run(chk):
         k = r.randint(1, kr)
         jobs.append((k, random_schedule(r, k)))
     jobs = [(k, complete(s, k)) for k, s in jobs]
+    # the collector thread starved (not scheduled) for a while after the stop request: the main thread must still wait for it
+    jobs.append((3, complete([["W", 0], ["W", 0], ["W", 0], ["C"], ["M"], ["S", 1.4]], 3)))
+    jobs.append((2, complete([["W", 0], ["C"], ["C"], ["W", 0], ["M"], ["S", 2.3], ["C"]], 2)))
     byk = {}
     for i, (k, s) in enumerate(jobs):
         byk.setdefault(k, []).append(i)
@@ -155,7 +158,8 @@ def run(chk):
     nchr = 24 if chk.tier == "quick" else 64
     case = {"genes": [], "tes": [], "windows": [100, 100, 200]}
     for i in range(nchr):
-        c = "c%02d" % i
+        # half of the ids are scaffold-like: several underscore-separated tokens, the last one shared
+        c = "c%02d" % i if i % 2 == 0 else "c%02d_KI2707%02dv1_random" % (i // 2 % 3, i)
         case["genes"].append({"name": c + "_g", "chrom": c, "start": 500, "stop": 700, "strand": "+"})
         case["tes"].append({"chrom": c, "start": 300 + i, "stop": 450 + i, "order": "LTR", "superfam": "Gypsy", "strand": "+"})
     for rnd in range(1 if chk.tier == "quick" else 4):
